@@ -243,6 +243,12 @@ func (g *gen) argTok() tok {
 		return g.write("with space " + r.Pick(words))
 	case 2:
 		g.feats["multiline-token"] = true
+		if r.Intn(4) == 0 {
+			// carriage returns inside quotes (a value wrapped in a file saved with
+			// CRLF line ends, or a lone CR) belong to the token like any other byte
+			g.feats["carriage-return-in-quotes"] = true
+			return g.write("crlf1\r\nline2 " + r.Pick(words) + " lone\rcr")
+		}
 		if r.Intn(3) == 0 {
 			// a backslash directly in front of a line break inside quotes (and
 			// backslashes elsewhere): kept verbatim, and the line still counts
@@ -685,6 +691,15 @@ func genCaseOpt(seed uint64, idx int, root string, inlineOnly bool) *rcase {
 	var blocks []*node
 	for i := 0; i < nb; i++ {
 		blocks = append(blocks, g.genBlock())
+		if i < nb-1 && ra.Chance(1, 6) {
+			// a block whose only key comes out empty (an unset variable, or "")
+			// and which has directives of its own: whatever the parser does with
+			// such a block, the blocks after it are exactly those written
+			kb := g.genBlock()
+			kb.Toks = []tok{[]tok{{Src: "{$VERIF_C10_U}", Want: ""}, {Src: `""`, Want: ""}}[ra.Intn(2)]}
+			blocks = append(blocks, kb)
+			g.feats["keyless-block-before-another"] = true
+		}
 	}
 	// reuse feature: the same run of lines appears twice (adjacent or with
 	// other lines between) and both copies are replaced by an import of one
